@@ -83,6 +83,7 @@ Definition w_zrle_cp24 : list tok :=
   fbu1 0 0 65 1 cE_ZRLE ++
   [TZ 0 true true ([128] ++ concat (repeat [17; 34; 51; 0] 63) ++ [17; 34; 51] ++ repeat 255 129 ++ [0] ++ [0; 68; 85; 102])].
 Definition state127 (f : pixfmt) (g w h : Z) : cst := set_fix (init_state f g w h) 127.   (* before d211e4c / 281f33a *)
+Definition state511 (f : pixfmt) (g w h : Z) : cst := set_fix (init_state f g w h) 511.   (* before a41e88e *)
 Lemma w_zrle_cp24_oob : handle_msg (state127 f888 255 65 1) w_zrle_cp24 = Oob 36.
 Proof. vm_compute. reflexivity. Qed.
 Lemma w_zrle_cp24_fixed :
@@ -91,11 +92,11 @@ Proof. vm_compute. exact I. Qed.
 
 (* F29 (known_findings.d/C08.json): HandleUltraZip computes ry + rw * 65535 in [int]; for rw >= 32769 the size wraps to a
    negative value, the allocation is skipped and the block is decompressed into the NULL raw_buffer of a fresh
-   client (SEGV, reproduced under ASan: corpus/C08/w_ultrazip_hugew.script).  Present on the baseline; gone with fix 9
-   (notes/fix_C08_9.diff). *)
+   client (SEGV, reproduced under ASan: corpus/C08/w_ultrazip_hugew.script).  Present before a41e88e (state511); gone with fix 9
+   (notes/fix_C08_9.diff = a41e88e), i.e. on the baseline. *)
 Definition w_ultrazip_hugew : list tok := fbu1 1 0 40000 0 cE_UltraZip ++ [TL [0; 0; 0; 0; 0; 1; 0; 1; 0; 0; 0; 0; 170; 187; 204; 221]].
-Lemma w_ultrazip_hugew_oob : handle_msg (init_state f888 255 16 16) w_ultrazip_hugew = Oob 45.
+Lemma w_ultrazip_hugew_oob : handle_msg (state511 f888 255 16 16) w_ultrazip_hugew = Oob 45.
 Proof. vm_compute. reflexivity. Qed.
 Lemma w_ultrazip_hugew_fixed :
-  match handle_msg (set_fix (init_state f888 255 16 16) 1023) w_ultrazip_hugew with Oob _ => False | _ => True end.
+  match handle_msg (init_state f888 255 16 16) w_ultrazip_hugew with Oob _ => False | _ => True end.
 Proof. vm_compute. exact I. Qed.
